@@ -269,7 +269,10 @@ func matchLeaf(l leaf, host string, qt uint16, mode string, o wireObs) (why stri
 		case *dns.A:
 			addrs = append(addrs, "A "+v.A.String())
 		case *dns.AAAA:
-			addrs = append(addrs, "AAAA "+netip.MustParseAddr(v.AAAA.String()).String())
+			// A 16-byte record is an IPv6 address also when net.IP prints it as
+			// dotted quad (IPv4-mapped).
+			a16, _ := netip.AddrFromSlice(v.AAAA.To16())
+			addrs = append(addrs, "AAAA "+a16.String())
 		default:
 			others = append(others, rrStr(rr))
 		}
